@@ -26,55 +26,81 @@ def _norm_order(v):
     return [] if v is None else list(v)
 
 
-# attribute notifications carrying old/new:  name -> (old key, new key, getter(sender, data))
-PAYLOAD = {
-    "Glyph.NameWillChange": ("oldValue", "newValue", lambda o, d: o.name),
-    "Glyph.NameChanged": ("oldValue", "newValue", lambda o, d: o.name),
-    "Glyph.UnicodesChanged": ("oldValue", "newValue", lambda o, d: o.unicodes),
-    "Glyph.WidthChanged": ("oldValue", "newValue", lambda o, d: o.width),
-    "Glyph.HeightChanged": ("oldValue", "newValue", lambda o, d: o.height),
-    "Glyph.NoteChanged": ("oldValue", "newValue", lambda o, d: o.note),
-    "Glyph.MarkColorChanged": ("oldValue", "newValue", lambda o, d: o.markColor),
-    "Glyph.VerticalOriginChanged": ("oldValue", "newValue", lambda o, d: o.verticalOrigin),
-    "Glyph.LeftMarginWillChange": ("oldValue", "newValue", lambda o, d: o.leftMargin),
-    "Glyph.LeftMarginDidChange": ("oldValue", "newValue", lambda o, d: o.leftMargin),
-    "Glyph.RightMarginWillChange": ("oldValue", "newValue", lambda o, d: o.rightMargin),
-    "Glyph.RightMarginDidChange": ("oldValue", "newValue", lambda o, d: o.rightMargin),
-    "Glyph.TopMarginWillChange": ("oldValue", "newValue", lambda o, d: o.topMargin),
-    "Glyph.TopMarginDidChange": ("oldValue", "newValue", lambda o, d: o.topMargin),
-    "Glyph.BottomMarginWillChange": ("oldValue", "newValue", lambda o, d: o.bottomMargin),
-    "Glyph.BottomMarginDidChange": ("oldValue", "newValue", lambda o, d: o.bottomMargin),
-    "Anchor.XChanged": ("oldValue", "newValue", lambda o, d: o.x),
-    "Anchor.YChanged": ("oldValue", "newValue", lambda o, d: o.y),
-    "Anchor.NameChanged": ("oldValue", "newValue", lambda o, d: o.name),
-    "Anchor.ColorChanged": ("oldValue", "newValue", lambda o, d: o.color),
-    "Anchor.IdentifierChanged": ("oldValue", "newValue", lambda o, d: o.identifier),
-    "Guideline.XChanged": ("oldValue", "newValue", lambda o, d: o.x),
-    "Guideline.YChanged": ("oldValue", "newValue", lambda o, d: o.y),
-    "Guideline.AngleChanged": ("oldValue", "newValue", lambda o, d: o.angle),
-    "Guideline.NameChanged": ("oldValue", "newValue", lambda o, d: o.name),
-    "Guideline.ColorChanged": ("oldValue", "newValue", lambda o, d: o.color),
-    "Guideline.IdentifierChanged": ("oldValue", "newValue", lambda o, d: o.identifier),
-    "Image.FileNameChanged": ("oldValue", "newValue", lambda o, d: o.fileName),
-    "Image.TransformationChanged": ("oldValue", "newValue", lambda o, d: o.transformation),
-    "Image.ColorChanged": ("oldValue", "newValue", lambda o, d: o.color),
-    "Component.BaseGlyphChanged": ("oldValue", "newValue", lambda o, d: o.baseGlyph),
-    "Component.TransformationChanged": ("oldValue", "newValue", lambda o, d: o.transformation),
-    "Component.IdentifierChanged": ("oldValue", "newValue", lambda o, d: o.identifier),
-    "Contour.WindingDirectionChanged": ("oldValue", "newValue", lambda o, d: o.clockwise),
-    "Contour.IdentifierChanged": ("oldValue", "newValue", lambda o, d: o.identifier),
-    "Layer.NameChanged": ("oldName", "newName", lambda o, d: o.name),
-    "Layer.ColorChanged": ("oldColor", "newColor", lambda o, d: o.color),
-    "LayerSet.DefaultLayerChanged": ("oldValue", "newValue",
-                                     lambda o, d: None if o.defaultLayer is None else o.defaultLayer.name),
-    "LayerSet.LayerOrderChanged": ("oldValue", "newValue", lambda o, d: o.layerOrder),
-    "Font.GlyphOrderChanged": ("oldValue", "newValue", lambda o, d: o.glyphOrder),
-    "Info.ValueChanged": ("oldValue", "newValue", lambda o, d: getattr(o, d["attribute"])),
-    "Features.TextChanged": ("oldValue", "newValue", lambda o, d: o.text),
-    "Lib.ItemSet": ("oldValue", "newValue", lambda o, d: _dict_get(o, d["key"])),
-    "Kerning.PairSet": ("oldValue", "newValue", lambda o, d: _dict_get(o, d["key"])),
-    "Groups.GroupSet": ("oldValue", "newValue", lambda o, d: _dict_get(o, d["key"])),
-}
+# attribute notifications carrying old/new values: WHICH getter they talk about is data of the Lean model
+# (lean/DefconModel/NotifGetters.lean, tied to the sources by `getter_keys_follow_source` and to the catalogue by
+# `catalogue_reads_table_getters`).  GETTERS is the harness's copy of that table - (notification, old key, new key,
+# data key that names the item, public attribute) - and is compared with the model's `(getter-table)` on every run;
+# the observers are BUILT from it by `getter_from`:
+#   "a.b"    -> object.a.b, None as soon as a link is None
+#   "[item]" -> object[data[item]], None when absent        "<item>" -> getattr(object, data[item])
+GETTERS = [
+    ("Glyph.NameWillChange", "oldValue", "newValue", None, "name"),
+    ("Glyph.NameChanged", "oldValue", "newValue", None, "name"),
+    ("Glyph.UnicodesChanged", "oldValue", "newValue", None, "unicodes"),
+    ("Glyph.WidthChanged", "oldValue", "newValue", None, "width"),
+    ("Glyph.HeightChanged", "oldValue", "newValue", None, "height"),
+    ("Glyph.NoteChanged", "oldValue", "newValue", None, "note"),
+    ("Glyph.MarkColorChanged", "oldValue", "newValue", None, "markColor"),
+    ("Glyph.VerticalOriginChanged", "oldValue", "newValue", None, "verticalOrigin"),
+    ("Glyph.LeftMarginWillChange", "oldValue", "newValue", None, "leftMargin"),
+    ("Glyph.LeftMarginDidChange", "oldValue", "newValue", None, "leftMargin"),
+    ("Glyph.RightMarginWillChange", "oldValue", "newValue", None, "rightMargin"),
+    ("Glyph.RightMarginDidChange", "oldValue", "newValue", None, "rightMargin"),
+    ("Glyph.TopMarginWillChange", "oldValue", "newValue", None, "topMargin"),
+    ("Glyph.TopMarginDidChange", "oldValue", "newValue", None, "topMargin"),
+    ("Glyph.BottomMarginWillChange", "oldValue", "newValue", None, "bottomMargin"),
+    ("Glyph.BottomMarginDidChange", "oldValue", "newValue", None, "bottomMargin"),
+    ("Anchor.XChanged", "oldValue", "newValue", None, "x"),
+    ("Anchor.YChanged", "oldValue", "newValue", None, "y"),
+    ("Anchor.NameChanged", "oldValue", "newValue", None, "name"),
+    ("Anchor.ColorChanged", "oldValue", "newValue", None, "color"),
+    ("Anchor.IdentifierChanged", "oldValue", "newValue", None, "identifier"),
+    ("Guideline.XChanged", "oldValue", "newValue", None, "x"),
+    ("Guideline.YChanged", "oldValue", "newValue", None, "y"),
+    ("Guideline.AngleChanged", "oldValue", "newValue", None, "angle"),
+    ("Guideline.NameChanged", "oldValue", "newValue", None, "name"),
+    ("Guideline.ColorChanged", "oldValue", "newValue", None, "color"),
+    ("Guideline.IdentifierChanged", "oldValue", "newValue", None, "identifier"),
+    ("Image.FileNameChanged", "oldValue", "newValue", None, "fileName"),
+    ("Image.TransformationChanged", "oldValue", "newValue", None, "transformation"),
+    ("Image.ColorChanged", "oldValue", "newValue", None, "color"),
+    ("Component.BaseGlyphChanged", "oldValue", "newValue", None, "baseGlyph"),
+    ("Component.TransformationChanged", "oldValue", "newValue", None, "transformation"),
+    ("Component.IdentifierChanged", "oldValue", "newValue", None, "identifier"),
+    ("Contour.WindingDirectionChanged", "oldValue", "newValue", None, "clockwise"),
+    ("Contour.IdentifierChanged", "oldValue", "newValue", None, "identifier"),
+    ("Layer.NameChanged", "oldName", "newName", None, "name"),
+    ("Layer.ColorChanged", "oldColor", "newColor", None, "color"),
+    ("LayerSet.DefaultLayerChanged", "oldValue", "newValue", None, "defaultLayer.name"),
+    ("LayerSet.LayerOrderChanged", "oldValue", "newValue", None, "layerOrder"),
+    ("Font.GlyphOrderChanged", "oldValue", "newValue", None, "glyphOrder"),
+    ("Info.ValueChanged", "oldValue", "newValue", "attribute", "<item>"),
+    ("Features.TextChanged", "oldValue", "newValue", None, "text"),
+    ("Lib.ItemSet", "oldValue", "newValue", "key", "[item]"),
+    ("Kerning.PairSet", "oldValue", "newValue", "key", "[item]"),
+    ("Groups.GroupSet", "oldValue", "newValue", "key", "[item]"),
+]
+
+
+def getter_from(attr, item):
+    """the observer's reading of a row of the getter table: `getter(sender, data)`"""
+    if attr == "[item]":
+        return lambda o, d: _dict_get(o, d[item])
+    if attr == "<item>":
+        return lambda o, d: getattr(o, d[item])
+    path = attr.split(".")
+
+    def f(o, d):
+        for a in path:
+            if o is None:
+                return None
+            o = getattr(o, a)
+        return o
+    return f
+
+
+# name -> (old key, new key, getter(sender, data))
+PAYLOAD = {n: (ok, nk, getter_from(attr, item)) for n, ok, nk, item, attr in GETTERS}
 # the attribute a payload notification is about (for chaining old values within one operation)
 ATTR = {n: n.split(".")[1].replace("WillChange", "").replace("DidChange", "").replace("Changed", "")
         for n in PAYLOAD}
@@ -126,6 +152,18 @@ WILL = {
     "ImageSet.ImageWillBeAdded": ("ImageSet.ImageAdded", "add", lambda o, d: d["name"] in o.fileNames),
     "ImageSet.ImageWillBeDeleted": ("ImageSet.ImageDeleted", "del", lambda o, d: d["name"] in o.fileNames),
 }
+# the data key that names the subject of a will-notification (Lean: `willSubject`, NotifGetters.lean)
+WILL_SUBJECT = {w: ("object" if k in ("add", "del") and w.split(".")[0] in ("Glyph", "Font") else
+                    "name" if k in ("add", "del") else None) for w, (d_, k, f_) in WILL.items()}
+
+
+def table_rendering():
+    """the harness's getter table and Will/Did pairs as the `setters` driver prints its own (`(getter-table)`)"""
+    from sexp import Atom, opt
+    return [[Atom("getters")] + [[n, ok, nk, opt(item), attr] for n, ok, nk, item, attr in GETTERS],
+            [Atom("wills")] + [[w, opt(WILL[w][0]), opt(WILL_SUBJECT[w])] for w in WILL]]
+
+
 DID = {}
 for _w, (_d, _k, _f) in WILL.items():
     DID.setdefault(_d, _f)
